@@ -23,14 +23,22 @@ Print Assumptions C09_lower_bin_correct.
 
 (* decimal literals with `_` and `e`: full statement (denotes mantissa * 10^exponent iff that
    is below 2^64, rejected otherwise) *)
+(* [V : variant] names the code variant the model mirrors (false = before the repair, true = after;
+   fix candidates .cache/prompts/C09-{2,3,4}-fix.diff).  For the repaired lowering the FULL statement holds: *)
+Theorem C09_lower_dec_full_fixed : forall V mant exp, fx_zero V = true -> dec_wf mant exp ->
+  lower_dec V mant exp = dec_spec mant exp.
+Proof. exact lower_dec_full_fixed. Qed.
+Print Assumptions C09_lower_dec_full_fixed.
+
+(* HISTORY (finding C09-4): the same statement about the unrepaired variant ... *)
 Definition C09_lower_dec_full : Prop := lower_dec_full.
-(* FALSE of the code as it is: 0e20 spells 0 and is rejected *)
+(* ... is FALSE: 0e20 spells 0 and is rejected *)
 Theorem C09_lower_dec_full_refuted : ~ C09_lower_dec_full.
 Proof. exact lower_dec_full_refuted. Qed.
 Print Assumptions C09_lower_dec_full_refuted.
 (* true for every other spelling *)
-Theorem C09_lower_dec_except_known : forall mant exp, dec_wf mant exp -> dec_known_class mant exp = false ->
-  lower_dec mant exp = dec_spec mant exp.
+Theorem C09_lower_dec_except_known : forall V mant exp, dec_wf mant exp -> dec_known_class V mant exp = false ->
+  lower_dec V mant exp = dec_spec mant exp.
 Proof. exact lower_dec_except_known. Qed.
 Print Assumptions C09_lower_dec_except_known.
 
@@ -61,25 +69,31 @@ Theorem C09_lower_char_plain : forall ch, ch <= 255 -> lower_char [Lit [ch]] = (
 Proof. exact lower_char_plain. Qed.
 Print Assumptions C09_lower_char_plain.
 
-(* acceptance: full statement "accepted iff the value fits the type" *)
+(* acceptance: full statement "accepted iff the value fits the type", for the repaired get_max_int_size *)
+Theorem C09_accept_full_fixed : forall V t n, fx_i128 V = true -> fx_isize V = true ->
+  ity_wf t -> 0 <= n <= u64_max -> accepted V t n = fits_ty t n.
+Proof. exact accept_full_fixed. Qed.
+Print Assumptions C09_accept_full_fixed.
+
+(* HISTORY (findings C09-2, C09-3): the same statement about the unrepaired variant ... *)
 Definition C09_accept_full : Prop := accept_full.
-(* FALSE: i128 rejects 2^63 *)
+(* ... is FALSE: i128 rejects 2^63 *)
 Theorem C09_accept_full_refuted : ~ C09_accept_full.
 Proof. exact accept_full_refuted. Qed.
 Print Assumptions C09_accept_full_refuted.
 (* and isize accepts 2^64-1 *)
-Theorem C09_accept_isize_witness : accepted (IT true 255) u64_max = true /\ fits_ty (IT true 255) u64_max = false.
+Theorem C09_accept_isize_witness : accepted v_orig (IT true 255) u64_max = true /\ fits_ty (IT true 255) u64_max = false.
 Proof. exact accept_isize_witness. Qed.
 Print Assumptions C09_accept_isize_witness.
 (* true outside those two classes, for all twelve integer types and all n < 2^64 *)
-Theorem C09_accept_iff_fits_except_known : forall t n, ity_wf t -> 0 <= n <= u64_max ->
-  accept_known_class t n = None -> accepted t n = fits_ty t n.
+Theorem C09_accept_iff_fits_except_known : forall V t n, ity_wf t -> 0 <= n <= u64_max ->
+  accept_known_class V t n = None -> accepted V t n = fits_ty t n.
 Proof. exact accept_iff_fits_except_known. Qed.
 Print Assumptions C09_accept_iff_fits_except_known.
 
 (* an accepted annotated literal keeps its written value *)
-Theorem C09_accepted_keeps_value_except_known : forall t n, ity_wf t -> 0 <= n <= u64_max ->
-  accept_known_class t n = None -> accepted t n = true -> observed t n = n.
+Theorem C09_accepted_keeps_value_except_known : forall V t n, ity_wf t -> 0 <= n <= u64_max ->
+  accept_known_class V t n = None -> accepted V t n = true -> observed t n = n.
 Proof. exact accepted_keeps_value_except_known. Qed.
 Print Assumptions C09_accepted_keeps_value_except_known.
 
@@ -96,9 +110,11 @@ Print Assumptions C09_default_keeps_value_except_known.
 
 (* non-vacuity *)
 Example C09_example :
-  lower_dec [Dg 1; Us; Dg 0] (Some [Dg 1; Us; Dg 0]) = Some 100000000000 /\
-  lower_dec [Dg 1; Dg 8; Dg 4; Dg 4; Dg 6; Dg 7; Dg 4; Dg 4; Dg 0; Dg 7; Dg 3; Dg 7; Dg 0; Dg 9; Dg 5; Dg 5; Dg 1; Dg 6; Dg 1; Dg 6] None = None /\
+  lower_dec v_orig [Dg 1; Us; Dg 0] (Some [Dg 1; Us; Dg 0]) = Some 100000000000 /\
+  lower_dec v_orig [Dg 1; Dg 8; Dg 4; Dg 4; Dg 6; Dg 7; Dg 4; Dg 4; Dg 0; Dg 7; Dg 3; Dg 7; Dg 0; Dg 9; Dg 5; Dg 5; Dg 1; Dg 6; Dg 1; Dg 6] None = None /\
   lower_hex [15; 15] = Some 255 /\
   lower_string [Lit [97]; Esc 110; Lit [98]] = ([97; 10; 98], O) /\
-  accepted (IT false 8) 255 = true /\ accepted (IT false 8) 256 = false.
+  accepted v_orig (IT false 8) 255 = true /\ accepted v_fixed (IT false 8) 256 = false /\
+  lower_dec v_fixed [Dg 0] (Some [Dg 2; Dg 0]) = Some 0 /\ accepted v_fixed (IT true 128) (2 ^ 63) = true /\
+  accepted v_fixed (IT true 255) (2 ^ 63) = false.
 Proof. repeat split; vm_compute; reflexivity. Qed.
